@@ -21,6 +21,8 @@ package jwx
 import (
 	"bytes"
 	"crypto/elliptic"
+	"encoding/base64"
+	"errors"
 	"fmt"
 
 	"github.com/lestrrat-go/jwx/v2/jwa"
@@ -61,6 +63,25 @@ func ValidateECCoordinates(key jwk.Key) error {
 		// leading zeroes do not make the number larger
 		if length := len(bytes.TrimLeft(value, "\x00")); length > maxLength {
 			return fmt.Errorf("invalid EC key: '%s' is %d bytes, which is more than curve %s allows (%d bytes)", name, length, curveAlgorithm, maxLength)
+		}
+	}
+	return nil
+}
+
+// ValidateCompactSerialization checks that the token is a JWS in the canonical compact serialization (RFC7515 §7.1):
+// exactly 3 segments separated by a dot, each of them base64url encoded without padding, whitespace or unused trailing bits.
+// The JWS library is lenient: it also accepts padded or non-URL base64 and line breaks, and then verifies the signature
+// over a normalized form instead of over the received bytes, which makes that many different tokens carry 1 signature.
+func ValidateCompactSerialization(token []byte) error {
+	segments := bytes.Split(token, []byte{'.'})
+	if len(segments) != 3 {
+		return errors.New("JWS is not in compact serialization form")
+	}
+	for _, segment := range segments {
+		decoded, err := base64.RawURLEncoding.Strict().DecodeString(string(segment))
+		// the decoder ignores line breaks, so compare with the re-encoded value
+		if err != nil || base64.RawURLEncoding.EncodeToString(decoded) != string(segment) {
+			return errors.New("JWS segment is not base64url encoded (without padding)")
 		}
 	}
 	return nil
